@@ -113,12 +113,39 @@ PROPS = {
     },
 }
 
+def schedlab(mode, scen_q, scen_t, wq, wt, toolchain="stable", tiers=("quick", "thorough"), tq=900, tt=5400):
+    return {"name": f"schedlab-{mode}" + ("" if toolchain == "stable" else f"-{toolchain}"), "pkg": "schedlab", "bin": "schedlab",
+            "toolchain": toolchain, "tiers": tiers,
+            "workers": {"quick": wq, "thorough": wt},
+            "timeout": {"quick": tq, "thorough": tt},
+            "args": {"quick": {"mode": mode, "scenarios": scen_q}, "thorough": {"mode": mode, "scenarios": scen_t}}}
+
+PROPS["C08"] = {
+    "level": "exploration",
+    "level_text": "held on N concurrent executions: for scenarios whose concurrent operations commute in the reference model, every explored interleaving (all single preemptions of each operation at every crux_verif hook point with the peer running meanwhile; randomised yields at hook points with 2-4 threads; plain stress, also under ThreadSanitizer) produced exactly the union of effects, the event log (with per-task order), the resolve verdicts and the final state of a sequential execution, left the core quiescent, and kept every subscription alive (sequential suffix compared with the model). Schedules are sampled / enumerated at hook granularity, not exhausted.",
+    "level_note": "interleavings inside crossbeam / futures internals are only reached by the stress, TSan and Miri lanes; the controller only blocks threads at hook points (places the OS may preempt anyway) and releases a held thread as soon as its peer waits for it",
+    "technique": "forced single-preemption schedules at hook points + randomised schedules + TSan/Miri stress; ledger oracle from a commuting-operations reference model",
+    "rule": "scenario = random program started on one Core + sequential prefix + 2-4 operations (resolve / drop / event / view) that commute in the model; forced lane: for each ordered pair and each hook hit k of the first operation, hold it there while the second runs; random/stress lanes: all at once, repeated; non-trivial = a schedule in which the held thread really was preempted at a hook (forced) or a run with >= 2 threads (random/stress); distinct = hash of (scenario, pair, k) / (scenario, repetition)",
+    "lanes": [
+        schedlab("forced", 800, 16000, 8, 16),
+        schedlab("random", 12000, 600000, 4, 16),
+        schedlab("stress", 12000, 600000, 4, 16),
+    ],
+    "floors": {"quick": {"evaluations": 30000, "distinct_nontrivial": 20000, "forced_schedules": 20000, "concurrent_runs": 30000},
+               "thorough": {"evaluations": 500000, "distinct_nontrivial": 200000}},
+    "must_cover": {"preemption_points_exercised": ["cmd.evict_between_reads", "cmd.wake.after_send", "cmd.wake.after_store", "qe.task_taken", "qe.after_poll_pending", "core.before_drain", "sr.resolve", "ss.resolve", "ctx.resolve_once", "ctx.resolve_many"],
+                   "apps": ["legacy", "command(attribute)", "command(derive)"]},
+    "assumptions": CMD_ASSUME + ["hang verdicts use a per-case wall-clock limit four orders of magnitude above the normal case time"],
+}
+
 ENGINES = [
     {"name": "cmdlab", "path": "harness/cmdlab", "serves_properties": ["C01", "C02", "C03", "C04", "C05", "C06", "C07", "C09"],
      "kind_free_text": "random program generator + executable reference model of command semantics + hosts (direct, stream-polled, nested, Core, legacy, bincode/JSON bridge) run in lock-step on the real crux code"},
+    {"name": "schedlab", "path": "harness/schedlab", "serves_properties": ["C08"],
+     "kind_free_text": "thread-schedule controller installed through the crux_verif hook points (record / forced single preemption / random yields) + stress lanes for ThreadSanitizer and Miri; oracle = cmdlab model over commuting operations"},
 ]
 
 NOT_APPLICABLE = [
     {"property_id": p, "reason": "check not built yet in this session (see DESIGN.md); to be claimed once its engine exists"}
-    for p in ["C08", "C10", "C11", "C12", "C13", "C14", "C15", "C16", "C17", "C18", "C19", "C20"]
+    for p in ["C10", "C11", "C12", "C13", "C14", "C15", "C16", "C17", "C18", "C19", "C20"]
 ]
